@@ -59,10 +59,14 @@ CliChecks(e) ==
      \cup Flag(e.exit = 0 => e.named \notin {"wrong_name", "wrong_unknown"}, "C05_tool_reports_a_sender_other_than_the_authenticated_key")
 
 \* C09: whatever the arguments, exit 0 or 1, "Error:" exactly when 1, no hang
+\* e.streams: "normal" | "stdout_full" | "stderr_full" (a standard stream that cannot be written).  With stderr unwritable
+\* no error line can be seen, but the status still is 0 or 1 and nothing panics.
 ArgvChecks(e) ==
   Flag(~e.timed_out, "C09_hang")
-  \cup Flag(e.exit \in {0, 1}, "C09_exit_status_not_0_or_1")
-  \cup Flag(e.errline = (e.exit = 1), "C09_error_line_iff_exit_1")
+  \cup (IF e.streams = "stderr_full"
+        THEN Flag(e.exit \in {0, 1}, "C09_panic_or_abort_when_stderr_cannot_be_written")
+        ELSE Flag(e.exit \in {0, 1}, "C09_exit_status_not_0_or_1")
+             \cup Flag(e.errline = (e.exit = 1), "C09_error_line_iff_exit_1"))
   \* where the peak resident set of the process was measured (very large input files): a constant bound, 300 MB
   \cup Flag("rss_kb" \notin DOMAIN e \/ e.rss_kb <= 300000, "C09_memory_raised_by_input_at_the_tool")
 
